@@ -1,4 +1,5 @@
 import Casket.Proofs.Policy
+import Casket.Proofs.Retry
 import Casket.Generated.Proxy
 /-
 C05 — Load balancing finds an available backend whenever one exists (selection part).
@@ -192,6 +193,28 @@ theorem C05_rr_even (p : Pool) (robin : Nat) (hn : p.length < 4294967296)
   rw [hpicks _ _ hpos]
   exact mem_rrSeq hpos (by simpa [two32] using hn) hj
 
+/-- Sequences of selections on one upstream (stream `c05.seq`): whatever the states the pool
+goes through between calls and wherever the counter starts, every single selection of the
+sequence satisfies the judged property — a backend that recovers is selectable again. -/
+def selectSeq (k : Kind) : List (Pool × Nat × List Nat) → Nat → List (Pool × Option Nat)
+  | [], _ => []
+  | (p, h, rs) :: rest, robin =>
+    let r := upstreamSelect k p robin h rs
+    (p, r.1) :: selectSeq k rest r.2
+
+theorem C05_seq_all_ok (k : Kind) (steps : List (Pool × Nat × List Nat)) (robin : Nat)
+    (hw : ∀ s ∈ steps, WellSized s.1) :
+    ∀ po ∈ selectSeq k steps robin, verdict k po.1 po.2 = "ok" := by
+  induction steps generalizing robin with
+  | nil => intro po h; simp [selectSeq] at h
+  | cons s rest ih =>
+    obtain ⟨p, h, rs⟩ := s
+    intro po hpo
+    simp only [selectSeq, List.mem_cons] at hpo
+    rcases hpo with rfl | hpo
+    · exact C05_model_verdict_ok k p robin h rs (hw (p, h, rs) (by simp))
+    · exact ih _ (fun s hs => hw s (by simp [hs])) po hpo
+
 /-- The seven policy names the Casketfile accepts are the ones modelled
 (regenerated from policy.go:init on every run). -/
 theorem C05_policy_names_modelled :
@@ -211,5 +234,93 @@ example : hostByHashing [⟨true, 0, 0⟩, ⟨true, 0, 0⟩, ⟨false, 0, 0⟩] 
 
 /-- Round robin at the uint32 wrap: pool of three, only backend 2 up, counter 2^32-2. -/
 example : (roundRobin [⟨true, 0, 0⟩, ⟨true, 0, 0⟩, ⟨false, 0, 0⟩] 4294967294).1 = some 2 := by decide
+
+/-!
+## The retry loop (second half of C05)
+
+`Casket.Retry.serve` is the model of the `for` loop of `Proxy.ServeHTTP` over abstract time
+(Model/Retry.lean), using the `upstreamSelect` proved sound and complete above; it is tied to
+the Go code by the stream `c05.retry`.  `RetrySpec.verdict` is the executable property the
+driver applies to the implementation's runs.  Timing is abstract: an attempt costs no time,
+a sleep costs `interval` ticks; the real clock is only explored by the stream.
+-/
+open Casket.Retry Casket.RetrySpec
+
+theorem C05_select_sound_for_retry : SelSound := fun k p robin h rs => C05_sound k p robin h rs
+
+theorem C05_select_complete_for_retry : SelComplete :=
+  fun k p robin h rs hw hav => C05_complete k p robin h rs hw hav
+
+/-- With retries enabled (try_duration > 0, fail_timeout > 0), a healthy backend (up, below its
+cap, answering), the other backends only failing or answering, and the time budget of
+`RetrySpec.budget` (max_fails · #other backends · try_interval < try_duration ≤ fail_timeout), the
+request is answered — for every pool, every policy, every round-robin counter, key, random stream,
+every failure script of the other backends and every max_fails. -/
+theorem C05_retry_reaches_healthy (c : Cfg) (robin : Nat) (hm : mustSucceed c = true) :
+    (serve c robin).1 = .success :=
+  serve_success C05_select_sound_for_retry C05_select_complete_for_retry c robin hm
+
+/-- Every attempt reads the complete original body — when the body is buffered (more than one
+backend) or there is only one attempt (try_duration 0).  PARTIAL: a single backend with retries
+enabled is excluded; see the witness below (known finding C05-retry-single-backend-body). -/
+theorem C05_retry_body_complete_partial (c : Cfg) (robin : Nat)
+    (h : c.hosts.length > 1 ∨ c.tryDuration = 0) : bodiesComplete c (serve c robin).2 = true := by
+  have key : ∀ a ∈ (serve c robin).2, BodyOK c a = true := by
+    unfold serve
+    by_cases hd : c.tryDuration = 0
+    · exact loop_bodies_single c hd _ _ [] rfl (by simp)
+    · have hb : buffered c = true := by
+        rcases h with h | h
+        · simp [buffered, h, hd]
+        · exact absurd h hd
+      exact loop_bodies_buffered c hb _ _ [] (by simp)
+  unfold bodiesComplete
+  rw [List.all_eq_true]
+  intro a ha
+  have := key a ha
+  simpa [BodyOK, Bool.or_assoc] using this
+
+/-- The excluded case does fail: one backend, max_fails 2, the first attempt fails after reading
+the body — the second attempt finds the body consumed. -/
+def singleBackendWitness : Cfg :=
+  { kind := .first, hash := 0, rands := (fun _ => []), tryDuration := 10, interval := 1, failTimeout := 100, maxFails := 2, maxConns := 0, hosts := [⟨false, 0, [.fail true, .ok]⟩], hasBody := true }
+
+theorem C05_retry_body_single_backend_fails_witness :
+    bodiesComplete singleBackendWitness (serve singleBackendWitness 0).2 = false := by
+  decide
+
+/-- No backend is ever available (all marked unhealthy or at their cap): the answer is 502, after
+try_duration has passed, without a single attempt. -/
+theorem C05_gives_up_502 (c : Cfg) (robin : Nat) (hn : neverAvailable c = true) (hI : c.interval ≥ 1) :
+    serve c robin = (.badGateway, []) :=
+  serve_gives_up C05_select_sound_for_retry c robin hn hI
+
+/-- The whole judged retry predicate on the model's own runs.  PARTIAL in the same way as
+`C05_retry_body_complete_partial`. -/
+theorem C05_retry_model_verdict_ok_partial (c : Cfg) (robin : Nat)
+    (h : c.hosts.length > 1 ∨ c.tryDuration = 0) (hI : c.interval ≥ 1) :
+    RetrySpec.verdict c (serve c robin).1 (serve c robin).2 = "ok" := by
+  unfold RetrySpec.verdict
+  have h1 : (mustSucceed c && (serve c robin).1 != .success) = false := by
+    cases hm : mustSucceed c with
+    | false => rfl
+    | true => simp [C05_retry_reaches_healthy c robin hm]
+  have h2 := C05_retry_body_complete_partial c robin h
+  have h3 : (neverAvailable c && ((serve c robin).1 != .badGateway || !(serve c robin).2.isEmpty)) = false := by
+    cases hn : neverAvailable c with
+    | false => rfl
+    | true => simp [C05_gives_up_502 c robin hn hI]
+  simp [h1, h2, h3]
+
+/-! Non-vacuity of the retry hypotheses: three backends, the first two failing (one of them only
+after reading the body), max_fails 2, round robin — the request is answered by backend 2 after
+two failed attempts, every reading attempt seeing the whole body. (test) -/
+def retryExample : Cfg :=
+  { kind := .roundRobin, hash := 0, rands := (fun _ => []), tryDuration := 100, interval := 1, failTimeout := 1000, maxFails := 2, maxConns := 0, hosts := [⟨false, 0, [.fail false]⟩, ⟨false, 0, [.fail true]⟩, ⟨false, 0, [.ok]⟩], hasBody := true }
+
+example : mustSucceed retryExample = true := by decide
+example : serve retryExample 2 =
+    (.success, [⟨0, .unread⟩, ⟨1, .full⟩, ⟨2, .full⟩]) := by decide
+example : neverAvailable { retryExample with hosts := [⟨true, 0, []⟩, ⟨false, 3, []⟩], maxConns := 3 } = true := by decide
 
 end Casket.Props.C05
